@@ -247,6 +247,79 @@ def _verify_schema(pid, label, src, dialect="default"):
         build.drop_module(mod)
 
 
+CODEC_SAME_NAME_SRC = '''
+import sys as _sys
+def _mkplain(tag, body):
+    m = types.ModuleType(f"mvc_c17_plain_{tag}_" + __name__.replace(".", "_"))
+    _sys.modules[m.__name__] = m
+    exec("from dataclasses import dataclass, field\\nfrom decimal import Decimal\\nfrom typing import List\\nfrom mashumaro import DataClassDictMixin\\n@dataclass\\nclass Event" + body, m.__dict__)
+    return m.Event
+PA = _mkplain("a", ":\\n    name: str = 'a'\\n    qty: int = 1\\n")
+PB = _mkplain("b", ":\\n    name: str = 'b'\\n    qty: Decimal = Decimal('2')\\n    tags: List[str] = field(default_factory=list)\\n")
+MA = _mkplain("ma", "(DataClassDictMixin):\\n    name: str = 'a'\\n    qty: int = 1\\n")
+MB = _mkplain("mb", "(DataClassDictMixin):\\n    name: str = 'b'\\n    qty: Decimal = Decimal('2')\\n    tags: List[str] = field(default_factory=list)\\n")
+from mashumaro.codecs.basic import BasicDecoder, BasicEncoder
+from mashumaro.codecs.json import JSONEncoder, JSONDecoder
+@dataclass
+class Holder:
+    a: PA
+    b: PB
+    bs: List[PB] = field(default_factory=list)
+'''
+
+
+def codec_same_name_task(payload):
+    """two distinct dataclasses with one class name, from different modules, inside ONE codec shape: every position is
+    (de)serialized by the code of its own class.  Closedness of all generated functions + the codec calls on one value
+    per arrangement (bounded; the mixin twin of this schema has symbolic identity obligations in the
+    same_name_other_modules family)."""
+    pid = payload[0]
+    src = g4.PRELUDE + CODEC_SAME_NAME_SRC
+    obs = []
+    try:
+        mod, recs0 = build.build_module(src)
+    except Exception as e:
+        return {"obligations": [dict(id=f"{pid}.G9[codec_same_name]/builds", status="refuted", detail=f"{type(e).__name__}: {e}"[:300], witness={"confirmed": True, "source": src, "why": str(e)[:200]})]}
+    try:
+        from decimal import Decimal
+
+        probs = []
+        shapes = {"Tuple[PA, PB]": (lambda: (mod.PA(), mod.PB(tags=["x"])), [{"name": "a", "qty": 1}, {"name": "b", "qty": "2", "tags": ["x"]}]),
+                  "Tuple[PB, PA]": (lambda: (mod.PB(tags=["x"]), mod.PA()), [{"name": "b", "qty": "2", "tags": ["x"]}, {"name": "a", "qty": 1}]),
+                  "Tuple[MA, MB]": (lambda: (mod.MA(), mod.MB(tags=["x"])), [{"name": "a", "qty": 1}, {"name": "b", "qty": "2", "tags": ["x"]}]),
+                  "Dict[str, Tuple[PB, PA]]": (lambda: {"k": (mod.PB(), mod.PA())}, {"k": [{"name": "b", "qty": "2", "tags": []}, {"name": "a", "qty": 1}]}),
+                  "Holder": (lambda: mod.Holder(mod.PA(), mod.PB(), [mod.PB(tags=["y"])]), {"a": {"name": "a", "qty": 1}, "b": {"name": "b", "qty": "2", "tags": []}, "bs": [{"name": "b", "qty": "2", "tags": ["y"]}]})}
+        n0 = len(harvest.RECORDER.records)
+        for sh, (mk, want) in shapes.items():
+            for encn, decn in (("BasicEncoder", "BasicDecoder"), ("JSONEncoder", "JSONDecoder")):
+                try:
+                    T = eval(sh, dict(mod.__dict__))
+                    v = mk()
+                    enc = getattr(mod, encn)(T)
+                    dec = getattr(mod, decn)(T)
+                    out = enc.encode(v)
+                    doc = out if encn == "BasicEncoder" else __import__("json").loads(out)
+                    if doc != want:
+                        probs.append(f"{encn}({sh}).encode(..) = {doc!r}, expected {want!r}")
+                    back = dec.decode(out)
+                    from . import samples
+
+                    if not samples.same(back, v):
+                        probs.append(f"{decn}({sh}).decode(encode(v)) = {back!r}, expected {v!r}")
+                except Exception as e:  # noqa
+                    probs.append(f"{encn}/{decn}({sh}) raised {type(e).__name__}: {str(e)[:140]}")
+        closed = []
+        for r in harvest.RECORDER.records[n0:]:
+            closed += units.closedness_problems(r)
+        w = {"confirmed": True, "source": src, "input": "Event of module a and Event of module b in one codec shape", "why": probs[0]} if probs else None
+        obs.append(dict(id=f"{pid}.G9[codec_same_name]/closed", status="proved" if not closed else "refuted", unit="generated encode/decode functions of the codec shapes", detail="; ".join(closed)[:600]))
+        obs.append(dict(id=f"{pid}.H9[codec_same_name]/own_class_code", status="proved" if not probs else "refuted", unit="codec calls on one value per arrangement (bounded)", bounded=True,
+                        detail="; ".join(sorted(set(probs)))[:700], witness=w))
+        return {"obligations": obs}
+    finally:
+        build.drop_module(mod)
+
+
 def lattice_task(payload):
     pid, texpr = payload
     return _verify_closed_only(pid, f"[{texpr}]", g4.class_source(texpr))
@@ -291,6 +364,7 @@ def check(pid, tier):
             payloads.append((pid, fam, "+".join(two) if isinstance(two, tuple) else "L1+L2", "two"))
     res1 = runner.run_pool(awkward_task, payloads, chunks=1)
     res1 += runner.run_pool(custom_task, [(pid, n) for n in CUSTOM], chunks=4)
+    res1 += runner.run_pool(codec_same_name_task, [(pid,)], chunks=1)
     types = g4.type_lattice(tier)
     res2 = runner.run_pool(lattice_task, [(pid, t) for t in types], chunks=4)
     pts = [p for p in g1.lattice_c09("quick")][:: (4 if tier == "quick" else 1)] + [p for p in g1.lattice_c05("quick")][:: (6 if tier == "quick" else 1)]
@@ -301,6 +375,21 @@ def check(pid, tier):
             crashes.append(r["crash"] + " @ " + r["payload"] + "\n" + r["trace"][-500:])
         else:
             obs.extend(r["obligations"])
+    # specialisations of a generic dataclass are bound through a method *name* derived from the type arguments:
+    # identity of the bound class needs that name to determine them (S6)
+    try:
+        from . import s6key
+
+        s6 = s6key.all_obligations(pid)
+        for o in s6:
+            # the same-qualname pair is this property's recorded finding F-C17-same-qualname seen through the key
+            if o["id"].endswith("look-alikes{same-qualname}"):
+                o["id"] = f"{pid}.G9[same_name_local_classes:L1+L2]@two/key"
+        obs += s6
+    except Exception as e:  # noqa
+        import traceback
+
+        crashes.append(f"S6: {type(e).__name__}: {e}\n" + traceback.format_exc()[-500:])
     return runner.finish(
         pid, tier, obs, t0,
         technique="static closedness obligations over every syntactic position of every harvested generated text (names resolve; every closed reference expression, incl. error-path constructor arguments, evaluates in the recorded namespace) + identity binding through the REF equality (callee objects compared by identity) on a family of awkward classes; pysym + z3",
